@@ -17,9 +17,19 @@ func init() {
 			"(2) per reaper, the Delete is dominated by its documented trigger — expiration: expireAfter set, not deleting, and now ≥ creation+expireAfter with exactly those operands; " +
 			"garbage collection: NodeClaim from the list filtered by Registered ∧ not deleting ∧ provider id absent from the provider's list, Node absent or not Ready, and no error edge of the Node lookup reaches Delete (fail closed); " +
 			"liveness: not Registered, launch/registration timeout elapsed with the right condition's transition time and constant; " +
-			"node repair: unhealthy condition found, toleration elapsed, pool/cluster healthy by the ≤ 20% (rounded up) rule, errors of either health lookup stop the action.",
-		NotCovered: []string{"truthfulness/completeness of the provider's List", "clock skew between controller and API server", "values of provider repair policies"},
-		Rules:      c16Rules,
+			"node repair: unhealthy condition found, toleration elapsed, pool/cluster healthy by the ≤ 20% (rounded up) rule, errors of either health lookup stop the action. " +
+			"(3) Added by the triage of the mutation sweep: an instance the provider lists is left out of the provider-id set only when it is being deleted (MPT3); " +
+			"a pool's circuit breaker counts exactly the Nodes labelled with the pool asked about — isNodePoolHealthy passes {karpenter.sh/nodepool: name} and areNodesHealthy lists with the options it is given (PROV6); " +
+			"expiration, liveness and node repair delete the very object whose trigger they evaluated, through whatever private helper issues the Delete (PROV7); " +
+			"'the Node is absent' is an established fact: NodeForNodeClaim answers NotFound only after a successful, empty Node list, Duplicate only after a successful list of ≥ 2, (node, nil) only with an entry of the list, and passes the list's error on otherwise (NODE1); " +
+			"AllNodesForNodeClaim answers without error only when the List succeeded or there is no provider id (NODE2) and lists by spec.providerID == Status.ProviderID (NODE3); " +
+			"Is/IgnoreNodeNotFoundError and Is/IgnoreDuplicateNodeError classify exactly their own error type and pass every other error on (ERRC1, ERRC2).",
+		NotCovered: []string{"truthfulness/completeness of the provider's List", "clock skew between controller and API server", "values of provider repair policies",
+			"which of several unhealthy conditions findUnhealthyConditions picks (each candidate is a matched condition with its own policy's toleration — the choice only moves the deletion later or earlier among legitimate triggers)",
+			"the termination-timestamp annotation written before a repair deletion (annotateTerminationGracePeriod) and the NodePool registration-health bookkeeping of the liveness check (C20) — neither is part of a reaper's trigger",
+			"garbage collection deletes when NodeForNodeClaim reports duplicate Nodes (today's documented behaviour: an invalid state, treated like an absent Node)",
+			"NodeClaimForNode's own lookup (node repair): a wrong answer is an error or not-found and stops the repair; that it never hands back another Node's NodeClaim is not decided"},
+		Rules: c16Rules,
 	})
 }
 
@@ -33,7 +43,7 @@ func c16Rules(tier string) []Rule {
 	)
 	// (a.Before(b) is rendered as b.After(a))
 	expTime := `\(time\.Time\)\.After\(\(time\.Time\)\.Add\(\$2\.ObjectMeta\.CreationTimestamp\.Time, \$2\.Spec\.ExpireAfter\.Duration\), iface:\(k8s\.io/utils/clock\.PassiveClock\)\.Now\(\$0\.clock\)\)$`
-	return []Rule{
+	rules := []Rule{
 		WMC{ID: "C16.WMC1", Sink: ncDelete,
 			Allowed: []string{
 				exp, gc, "(*life.Liveness).deleteNodeClaimForTimeout", healD,
@@ -173,6 +183,28 @@ func c16Rules(tier string) []Rule {
 		// launched in between is in the snapshot, never the other way round
 		NOREACH{ID: "C16.NR2", Fn: "(*controllers/nodeclaim/garbagecollection.Controller).Reconcile", From: `^call iface:\(cloudprovider\.CloudProvider\)\.List\(\$0\.cloudProvider\)$`,
 			Sink: `^call utils/nodeclaim\.ListManaged\(`, Note: "no NodeClaim listing after the provider snapshot"},
+		// ---- triage of the mutation sweep (tC16): facts the statement relies on that no operator of the sweep could reach
+		// garbage collection, "the provider no longer lists its instance": an entry of the provider's List is left out of the
+		// provider-id set only when that instance is being deleted — a predicate that drops live instances makes every
+		// registered NodeClaim look orphaned
+		core.Custom{ID: "C16.MPT3", Kind: "MPT", Run: c16ProviderFilter},
+		// node repair, "of the pool's nodes": the circuit breaker of a pool counts exactly the Nodes carrying that pool's
+		// label — isNodePoolHealthy hands its pool name on as a label selector and areNodesHealthy lists with the options
+		// it was given (a cluster-wide count lets a fully broken small pool be repaired node by node)
+		core.Custom{ID: "C16.PROV6", Kind: "PROV", Run: func(w *core.World, id string) []core.Result {
+			rs := core.SelectorArg(w, id, "(*controllers/node/health.Controller).isNodePoolHealthy", `^call \(\*controllers/node/health\.Controller\)\.areNodesHealthy\(`, 2,
+				`^"karpenter\.sh/nodepool"$`, `^\$\d+$`, 1, "the pool's health is judged on the Nodes labelled karpenter.sh/nodepool=<the pool asked about>")
+			return append(rs, core.ArgProvenance(w, id, "(*controllers/node/health.Controller).areNodesHealthy", `^call iface:\(cr/client\.Reader\)\.List\(\$0\.kubeClient, <\*corev1\.NodeList>`, 3,
+				`^(\$\d+|append\((.*, )?\$\d+(, .*)?\))$`, "the Node list that is counted is taken with the caller's list options (the pool selector)")...)
+		}},
+		// every reaper deletes the very object whose trigger it evaluated (garbage collection: C16.PROV3): expiration and
+		// liveness their reconciled NodeClaim, node repair the NodeClaim looked up for the unhealthy Node — through
+		// whatever private helper issues the Delete
+		core.Custom{ID: "C16.PROV7", Kind: "PROV", Run: func(w *core.World, id string) []core.Result {
+			rs := core.ArgProvenance(w, id, exp, ncDelete, 2, `^\$2$`, "expiration deletes the NodeClaim whose age it checked")
+			rs = append(rs, core.ArgProvenanceN(w, id, live, ncDelete, 2, `^\$2$`, "the liveness check deletes the NodeClaim whose conditions it checked", 2)...)
+			return append(rs, core.ArgProvenance(w, id, heal, ncDelete, 2, `^utils/node\.NodeClaimForNode\(\$0\.kubeClient, \$2\)#0$`, "node repair deletes the NodeClaim of the Node whose condition it checked")...)
+		}},
 		// findUnhealthyConditions: a condition is returned only when its status equals the policy's status
 		core.Custom{ID: "C16.DOM5", Kind: "DOM", Run: c16FindUnhealthy},
 		// …and the toleration returned with it is that condition's own policy's: the pair is replaced as a whole
@@ -180,6 +212,9 @@ func c16Rules(tier string) []Rule {
 			return core.PhiCoUpdate(w, id, "PROV", "(*controllers/node/health.Controller).findUnhealthyConditions", []int{0, 1}, "the unhealthy condition and the toleration duration returned belong to the same repair policy")
 		}},
 	}
+	// garbage collection, "its Node is absent … and not when that cannot be established": what NodeForNodeClaim's answers
+	// and the two Ignore helpers applied to them mean (shared_tC16.go)
+	return append(rules, nodeLookupRules("C16.")...)
 }
 
 func c16ProviderSet(w *core.World, id string) []core.Result {
@@ -206,6 +241,37 @@ func c16ProviderSet(w *core.World, id string) []core.Result {
 		return []core.Result{core.Bad(id, "PROV", "PROV:"+gc+":filter", w.Pos(pred.Pos()), "the membership test does not consult the set built from the provider's List")}
 	}
 	return rs
+}
+
+// C16.MPT3: the predicate that narrows the provider's List before the provider-id set is built answers false (entry left
+// out) only for an instance that is being deleted.
+func c16ProviderFilter(w *core.World, id string) []core.Result {
+	const gc = "(*controllers/nodeclaim/garbagecollection.Controller).Reconcile"
+	construct := "MPT:" + gc + ":provider-list-filter⇒false"
+	if w.Fn(gc) == nil {
+		return []core.Result{core.Anchor(id, "MPT", gc)}
+	}
+	pred := w.FnArgOf(gc, `^call lo\.Filter\[\*apis/v1\.NodeClaim, \[\]\*apis/v1\.NodeClaim\]\(iface:\(cloudprovider\.CloudProvider\)\.List\(`, 1)
+	if pred == nil {
+		return []core.Result{core.Bad(id, "MPT", construct, w.Pos(w.Fn(gc).Pos()), "the predicate that narrows the provider's List (lo.Filter over CloudProvider.List's result) cannot be resolved: which instances count as listed is not decided")}
+	}
+	g := G(`-^\(\*metav1\.Time\)\.IsZero\(\$0\.ObjectMeta\.DeletionTimestamp\)$`)
+	var out []core.Result
+	sinks := w.ReturnSinks(pred, core.RetFalse)
+	for _, s := range sinks {
+		if !w.RetGuarded(s, g) {
+			out = append(out, core.Bad(id, "MPT", construct, w.InstrPos(s.Ret),
+				"an instance the provider lists can be left out of the provider-id set ("+s.Desc+") although it is not being deleted: its registered NodeClaim is then garbage collected while the instance exists", w.DominatingLits(s.Ret)...))
+		}
+	}
+	if len(sinks) == 0 {
+		// a predicate that never drops anything keeps every listed instance: stronger than required
+		return []core.Result{core.OK(id, "MPT", construct, 1, "the predicate never leaves a listed instance out")}
+	}
+	if len(out) == 0 {
+		out = append(out, core.OK(id, "MPT", construct, len(sinks), "a listed instance is left out of the set only when its DeletionTimestamp is set"))
+	}
+	return out
 }
 
 // C16.PROV1: threshold is 20% of the listed nodes, rounded up.
